@@ -71,6 +71,20 @@ extern "C" int h_c14() {
   __vp_reached("c14.end");
   return 0;
 }
+// C19: float -> unsigned 64-bit conversions of values the caller controls.  x86-64 has no such instruction before AVX-512; g++ and clang++
+// emit different sequences that disagree on operands >= 2^64.  Both rates are free floats; the engine records every such conversion site
+// together with the condition "operand >= 2^64", z3 decides whether it can hold, the counterexample is replayed on a g++ and a clang++ build.
+extern "C" int h_c19_rates() {
+  ezc3d::c3d c;
+  float r = __vp_sym_f32("prate"), a = __vp_sym_f32("arate");
+  int out = 0;
+  try { set_rate(c, "POINT", r); set_rate(c, "ANALOG", a); } catch (std::exception&) { out = 1; }
+  __vp_tag("rates"); __vp_obs_u64("outcome", out);
+  __vp_obs_f32("hdr.frameRate", c.header().frameRate()); __vp_obs_u64("hdr.nbAnalogByFrame", c.header().nbAnalogByFrame());
+  __vp_obs_u64("hdr.nbAnalogsMeasurement", c.header().nbAnalogsMeasurement()); __vp_obs_u64("hdr.nbFrames", c.header().nbFrames());
+  __vp_reached("c19r.end");
+  return 0;
+}
 // C15: a save that did not reach the disk is reported
 extern "C" int h_c15() {
   const int source = __vp_cfg("source");
